@@ -318,13 +318,37 @@ func (cs *State) OnStart() error {
 	// log to catchup.
 	if cs.doWALCatchup {
 		repairAttempted := false
+		markerWritten := false
 
 	LOOP:
 		for {
 			err := cs.catchupReplay(cs.Height)
+			var missing errEndHeightMissing
 			switch {
 			case err == nil:
 				break LOOP
+
+			case errors.As(err, &missing) && !markerWritten:
+				// The state is at missing.endHeight (a crash between saving that block
+				// and logging its #ENDHEIGHT, made up for by the handshake) but the WAL
+				// does not say so. Nothing needs replaying, but without the marker
+				// nothing we log for this height could be replayed after the next crash
+				// either. Log it now - behind a complete record: a tail torn by the
+				// crash is cut off first, or the marker would be unreadable.
+				torn, terr := walHeadIsTorn(cs.config.WalFile())
+				if terr != nil {
+					return terr
+				}
+				if !torn {
+					if werr := cs.wal.WriteSync(EndHeightMessage{missing.endHeight}); werr != nil {
+						return werr
+					}
+					markerWritten = true
+					continue LOOP
+				}
+				if repairAttempted {
+					return err
+				}
 
 			case !IsDataCorruptionError(err):
 				cs.Logger.Error("error on catchup replay; proceeding to start state anyway", "err", err)
